@@ -1246,6 +1246,14 @@ func (c *Ctx) lateDerived(prop string) {
 		m.OMap(holder, &Fn{Name: "id"})
 		m.Filter(lholder, "all")
 	case "C19", "C05", "C06":
+		m.TypeOf(lholder, 0) // a derived value is a List / an Object for every kind test
+		m.TypeOf(lholder, 1)
+		m.OTypeOf(holder, "l")
+		m.OTypeOf(holder, "o")
+		m.TypeOfTF(lholder, "#0")
+		m.OTypeOfTF(holder, ".o")
+		m.AllK(m.NewList(m.RefGV(dL)), 'l')
+		m.AllK(m.NewList(m.RefGV(dO)), 'o')
 		m.Get(lholder, 0)
 		m.Get(lholder, 1)
 		m.GetK(lholder, 'l', 0)
